@@ -73,12 +73,12 @@ def wdFrom : Nat → List (String × Bool) → List Nat
   | i, c :: t => if c.2 then i :: wdFrom (i + 1) t else wdFrom (i + 1) t
 def withdrawnInds (cands : List (String × Bool)) : List Nat := wdFrom 0 cands
 
-/-- `_dump_vote` (L71-80): `[n_votes] + [index+1 ...] + [0]` -/
+/-- `_dump_vote` (L72-85) when it does not refuse: `[n_votes] + [index+1 ...] + [0]` -/
 def dumpVote (b : List Nat × Weight) : Line :=
   .toks (weightTok b.2 :: (b.1.map (fun i => Tok.nat (i + 1)) ++ [Tok.nat 0]))
 
-/-- `dump_lines` (L37-58) with an explicit candidate list -/
-def dumpBlt (d : Doc Weight) : List Line :=
+/-- the lines of `dump_lines` (L37-58) with an explicit candidate list, when no ballot is refused -/
+def dumpLines (d : Doc Weight) : List Line :=
   [Line.toks [.nat d.cands.length, .nat d.nSeats]]
   ++ (withdrawnInds d.cands).map (fun (i : Nat) => Line.toks [.dec (-((i : Rat) + 1))])
   ++ d.ballots.map dumpVote
@@ -86,13 +86,24 @@ def dumpBlt (d : Doc Weight) : List Line :=
   ++ d.cands.map (fun c => Line.quoted c.1)
   ++ (match d.title with | some t => [Line.quoted t] | none => [])
 
+def notSupported : Err := Err.other "NotSupportedInFormat"
+
+/-- what `_dump_vote` refuses with NotSupportedInBLT: a negative weight (L76-78, since 7f49a3e: a line starting with a
+    negative number marks withdrawn candidates) and a ballot naming somebody who is not in the candidate list
+    (`candidates.index` fails, L79-82; a position outside the list stands for such a candidate) -/
+def voteRefused (nCands : Nat) (b : List Nat × Weight) : Bool :=
+  decide (b.2.val < 0) || b.1.any (fun i => decide (nCands ≤ i))
+
+/-- `dump_lines` / `dumps`: the generator raises at the first refused ballot, so no text is produced at all -/
+def dumpBlt (d : Doc Weight) : Except Err (List Line) :=
+  if d.ballots.any (voteRefused d.cands.length) then throw notSupported else pure (dumpLines d)
+
 /-! ### parser (blt.py L91-264) -/
 
 /-- a parsed item of a number line -/
 inductive Num where
   | nat (n : Nat)
-  | dec (r : Rat)              -- Decimal or Fraction: only the value matters below (L187-193 turns a mixed
-                               -- Decimal / Fraction sum into Fractions, exactly)
+  | dec (r : Rat)              -- Decimal or Fraction: only the value matters below (`add_weights` adds exactly)
 deriving DecidableEq, Repr, Inhabited
 
 def Num.val : Num → Rat
@@ -128,7 +139,9 @@ def parseHeader (l : Line) : Except Err (Nat × Nat) := do
 /-- ballots under construction: index tuples (1-based, as read) with the running weight -/
 abbrev RawBallots := List (List Nat × Rat)
 
-/-- `ballots[ballot] += weight` with the `= 0` initialisation (L181-183) -/
+/-- `ballots[ballot] = add_weights(ballots[ballot], weight)` with the `= 0` initialisation (L188-192; io/core.py
+    `add_weights`, since 134a849): the first weight is taken as it is, every further one is added EXACTLY (a Decimal
+    goes through Fraction, so nothing is rounded to the Decimal context and Decimal meets Fraction) — here: Rat -/
 def addBallot : RawBallots → List Nat → Rat → RawBallots
   | [], b, w => [(b, 0 + w)]
   | (b', w') :: t, b, w => if b' = b then (b', w' + w) :: t else (b', w') :: addBallot t b w
@@ -162,7 +175,7 @@ def parseBody (oneplus : Bool) : List Line → RawBallots → List Rat → Bool 
               match body with
               | [] => throw Err.parseError         -- unreachable: a single 0 is the terminator, a single non-zero fails above
               | w :: idx =>
-                  if oneplus && decide (w.val < 1) then throw (Err.other "ValueError")     -- L183-184 `oneplus_weights`
+                  if oneplus && decide (w.val < 1) then throw Err.parseError      -- L186-187 `oneplus_weights` (BLTParseError since 6e1811c)
                   else parseBody oneplus rest (addBallot ballots (natsOf idx) w.val) withdrawn true
           | none => throw Err.parseError           -- unreachable
 
@@ -239,6 +252,15 @@ def weightOK : Weight → Bool
 def WFdoc (d : Doc Weight) : Bool :=
   d.ballots.all (fun b => b.1.all (· < d.cands.length) && weightOK b.2)
   && decide (d.ballots.map (·.1)).Nodup
+
+/-- what holds of every election handed to the writer, by the way it is represented here: the ballots are the keys of
+    a dict (pairwise different), and a Decimal whose `str()` is all digits is a non-negative whole number -/
+def reprOK : Weight → Bool
+  | .decimal r digits => !digits || (r.den = 1 && decide (0 ≤ r))
+  | _ => true
+
+def WFrepr (d : Doc Weight) : Bool :=
+  d.ballots.all (fun b => reprOK b.2) && decide (d.ballots.map (·.1)).Nodup
 
 def eraseDoc (d : Doc Weight) : Doc Rat :=
   { nSeats := d.nSeats, cands := d.cands, ballots := d.ballots.map (fun b => (b.1, b.2.val)), title := d.title }
